@@ -274,6 +274,9 @@ func chainReplay(args []string) {
 
 	p := testProtocol(1)
 	parser := operationparser.New(p)
+	// what the parser reports for ANCHORED operations does not depend on the time validator (which judges
+	// requests that are not anchored yet): a validator that refuses everything
+	anchoredParser := operationparser.New(p, operationparser.WithAnchorTimeValidator(refusingTimeValidator{}))
 
 	readTagged(os.Stdin, "CHAIN", fl.str("tlclog", ""), func(line []byte) {
 		if seen[string(line)] {
@@ -362,6 +365,22 @@ func chainReplay(args []string) {
 						}
 					}
 
+					// an RSA key (member names n / nonce: one is a prefix of the other), with and without nonce
+					{
+						rsa := &jws.JWK{Kty: "RSA", N: "sXchDaQebHnPiGvyDOAT4saGEUetSyo9MKLOoWFsueri23bOdgWp4Dy1WlUzewbgBHod5pcM9H95GQRV3JDXboIRROSBigeC5yjU1hGzHHyXss8UDprecbAYxknTcQkhslANGRUZmdTOQ5qTRsLAt6BTYuyvVRdhS8exSZEy_c4gs_7svlJJQ4H9_NxsiIoLwAEk7-Q3UXERGYw_75IDrGA84-lA_-Ct4eTlXHBIY2EaV7t7LjJaynVJCpkv4LKjTTAumiGUIuQhrNhZLuF_RJLqHpM2kgWFLU7-VTdL1VbC2tejvcI2BlMkEpk1BzBZI0KQB0GaDWFLN-aEAw3vRw", E: "AQAB"}
+						if nonce {
+							rsa.Nonce = b64(seedBytes(seed, "chain-nonce/rsa", 16))
+						}
+
+						rv, e1 := commitment.GetRevealValue(rsa, uint(alg))
+						cm, e2 := commitment.GetCommitment(rsa, uint(alg))
+
+						if e1 != nil || e2 != nil || rv != refReveal(jwkMap(rsa), alg) || cm != refCommitment(jwkMap(rsa), alg) {
+							fail("reveal-value", "RSA key: reveal / commitment are not the hashes of the canonical JWK", []string{refReveal(jwkMap(rsa), alg), refCommitment(jwkMap(rsa), alg)}, []string{rv, cm, fmt.Sprint(e1, e2)})
+							return
+						}
+					}
+
 					// ---- the chain as real signed requests
 					reqs := make([][]byte, len(cl.Ops))
 					commitOf := func(id int) string { return refCommitment(jwkMap(keyOf(id)), alg) }
@@ -385,7 +404,7 @@ func chainReplay(args []string) {
 
 						signer := pool.Get(kt, fmt.Sprintf("chain%d", o.Signer))
 						jwk := keyOf(o.Signer)
-						signed := map[string]interface{}{}
+						signed := map[string]interface{}{"anchorFrom": 1 + i, "anchorUntil": 3 + i}
 						req := map[string]interface{}{"type": o.Type, "didSuffix": testSuffix, "revealValue": refReveal(jwkMap(jwk), alg)}
 
 						switch o.Type {
@@ -415,7 +434,7 @@ func chainReplay(args []string) {
 							return
 						}
 
-						next, err := parser.GetCommitment(reqs[i])
+						next, err := anchoredParser.GetCommitment(reqs[i])
 
 						switch o.Type {
 						case "create":
@@ -438,10 +457,30 @@ func chainReplay(args []string) {
 								fail("get-commitment", "recover", commitOf(o.Nr), map[string]interface{}{"commitment": next, "err": fmt.Sprint(err)})
 								return
 							}
+
+							// an anchored recover whose delta is missing still advances the recovery chain (it is applied
+							// with an empty document): it reports the same recovery commitment and reveal value
+							var m map[string]interface{}
+
+							_ = json.Unmarshal(reqs[i], &m)
+							delete(m, "delta")
+							bare, _ := json.Marshal(m)
+
+							if _, perr := anchoredParser.ParseOperation("did:sidetree", bare, true); perr == nil {
+								n2, e2 := anchoredParser.GetCommitment(bare)
+								r2, e3 := anchoredParser.GetRevealValue(bare)
+								r1, _ := anchoredParser.GetRevealValue(reqs[i])
+
+								if e2 != nil || e3 != nil || n2 != next || r2 != r1 {
+									fail("get-commitment", "recover without delta", map[string]interface{}{"commitment": next, "reveal": r1},
+										map[string]interface{}{"commitment": n2, "reveal": r2, "err": fmt.Sprint(e2, e3)})
+									return
+								}
+							}
 						}
 
 						if i == 0 {
-							if _, err := parser.GetRevealValue(reqs[i]); err == nil {
+							if _, err := anchoredParser.GetRevealValue(reqs[i]); err == nil {
 								col.beyond("get-reveal-value-create", "GetRevealValue answers a create request", nil, "error", nil)
 							}
 
@@ -449,7 +488,7 @@ func chainReplay(args []string) {
 						}
 
 						// the link: reveal(op) maps to the commitment its predecessor on the chain reports
-						rv, err := parser.GetRevealValue(reqs[i])
+						rv, err := anchoredParser.GetRevealValue(reqs[i])
 						if err != nil {
 							fail("get-reveal-value", err.Error(), nil, nil)
 							return
@@ -469,14 +508,14 @@ func chainReplay(args []string) {
 
 						switch o.Where {
 						case "GetCommitment":
-							reported, err = parser.GetCommitment(pre)
+							reported, err = anchoredParser.GetCommitment(pre)
 							if err != nil {
 								fail("get-commitment", err.Error(), nil, nil)
 								return
 							}
 						default:
 							// the parsed predecessor's model (through the parser, batch mode)
-							op, perr := parser.ParseOperation("did:sidetree", pre, true)
+							op, perr := anchoredParser.ParseOperation("did:sidetree", pre, true)
 							if perr != nil {
 								fail("chain-request-rejected", perr.Error(), nil, string(pre))
 								return
@@ -503,3 +542,7 @@ func chainReplay(args []string) {
 	col.sum.Extra["algebra_checks"] = algebra
 	col.finish()
 }
+
+type refusingTimeValidator struct{}
+
+func (refusingTimeValidator) Validate(_, _ int64) error { return fmt.Errorf("operation expired") }
